@@ -6,6 +6,7 @@
 mod common;
 mod eng_comb;
 mod eng_reader;
+mod eng_scan;
 
 use common::*;
 use std::io::{BufRead, Write};
@@ -22,6 +23,7 @@ pub fn run_line(line: &str) -> (String, Vec<String>) {
     match engine {
         "reader" => eng_reader::run_case(&eng_reader::Case::parse(line)),
         "comb" => eng_comb::run_case(line),
+        "scan" => eng_scan::run_case(line),
         _ => ("unknown-engine".into(), vec![]),
     }
 }
@@ -45,10 +47,17 @@ fn main() {
                 }
                 return;
             }
+            if engine == "scan" && opt.contains("exhaustive") {
+                for l in eng_scan::exhaustive_ws(if thorough { 6 } else { 4 }) {
+                    writeln!(out, "{}", l).unwrap();
+                }
+                return;
+            }
             for _ in 0..n {
                 let mut r = rng.fork();
                 let line = match engine {
                     "reader" => eng_reader::gen_case(&mut r, opt.contains("lies"), thorough).line(),
+                    "scan" => eng_scan::gen_case(&mut r, thorough),
                     _ => panic!("unknown engine {}", engine),
                 };
                 writeln!(out, "{}", line).unwrap();
